@@ -306,6 +306,8 @@ def run(ck: Checker) -> None:
     ck.guard("R-PRESENCE", lambda: S.r_class_attr_cache(ck, "R-PRESENCE", (LNODE,)))
     ck.guard("R-WORKLIST", lambda: S.r_mutable_default(ck, "R-WORKLIST", (LNODE, LXP)))
     ck.guard("R-WORKLIST", lambda: S.r_iter_once(ck, "R-WORKLIST", (LNODE, LXP)))
+    ck.guard("R-GATHER", lambda: S.r_cached_closure(ck, "R-GATHER", (LNODE,)))
+    ck.guard("R-XP-SHARED", lambda: S.r_stateless(ck, "R-XP-SHARED", LXP, "XPathTransformer", None, "one transformer instance serves every parse, also after a failed one"))
     from .c17 import r_no_memo
     ck.guard("R-XP-SHARED", lambda: r_no_memo(ck, "R-XP-SHARED"))  # class names are resolved against the live registry on every compilation
     from .c18 import r_leg_live_links
